@@ -174,6 +174,12 @@ def run(rep, tier, seed, replay=None):
         note_known('mixed-sign-top-set', 'witness: B at y=%s, adjoining margins {-10, 20, -5} give y=30' % m.group(2))
     else:
         stale.append('mixed-sign-top-set')
+    rc, out = vh(binp, ['c10', 'insetwitness'], timeout=60)
+    m = re.search(r'INSETWITNESS a_y=(\S+) a_h=(\S+) b_y=(\S+)', out)
+    if m and float(m.group(3)) < float(m.group(1)) + float(m.group(2)):
+        note_known('relative-inset-overlap', 'witness: first child at y=%s height %s, next sibling at y=%s' % m.groups())
+    else:
+        stale.append('relative-inset-overlap')
     rep.cov['known_findings_not_reproduced'] = stale
 
     def absorb(out, kind, mk_replay):
